@@ -489,15 +489,12 @@ Definition dn_loop1 (first_sub : N) (st : dn_state) (n : obj) : dn_state :=
   else if negb (o_subtype n =? first_sub) then st
   else dn_check (if bs_subset (o_cpuset n) (dn_rem st) then dn_take st n else st).
 
-(* second loop; note that the C code tests bit i (the position in the sorted
-   array), not nodes[i]->os_index *)
-Definition dn_loop2 (st : dn_state) (e : N * obj) : dn_state :=
-  let (i, n) := e in
+(* second loop: "already taken?" tests nodes[i]->os_index (fix a3b32cd) *)
+Definition dn_loop2 (st : dn_state) (n : obj) : dn_state :=
   if dn_done st then st
-  else if mem i (dn_set st) then st
+  else if mem (o_os n) (dn_set st) then st
   else dn_check (if bs_subset (o_cpuset n) (dn_rem st) && negb (bs_is_empty (o_cpuset n))
                  then dn_take st n else st).
-
 
 (* hwloc_topology_get_default_nodeset *)
 Definition default_nodeset (s : mstate) (flags : N) : res bset :=
@@ -507,7 +504,7 @@ Definition default_nodeset (s : mstate) (flags : N) : res bset :=
   | first :: rest =>
     let st0 := dn_take (DN bs_empty (t_root (m_topo s)) false) first in
     let st1 := fold_left (dn_loop1 (o_subtype first)) rest st0 in
-    let st2 := fold_left dn_loop2 (number_from 1 rest) st1 in
+    let st2 := fold_left dn_loop2 rest st1 in
     Ok (dn_set st2)
   end.
 
